@@ -349,7 +349,7 @@ func (c *Client) Auth(a Auth) error {
 // SMTPUTF8 parameter.
 // This initiates a mail transaction and is followed by one or more [Client.Rcpt] calls.
 func (c *Client) Mail(from string) error {
-	if err := validateLine(from); err != nil {
+	if err := validatePath(from); err != nil {
 		return err
 	}
 	if err := c.hello(); err != nil {
@@ -380,7 +380,7 @@ func (c *Client) Mail(from string) error {
 // A call to Rcpt must be preceded by a call to [Client.Mail] and may be followed by
 // a [Client.Data] call or another Rcpt call.
 func (c *Client) Rcpt(to string) error {
-	if err := validateLine(to); err != nil {
+	if err := validatePath(to); err != nil {
 		return err
 	}
 
@@ -691,6 +691,21 @@ func quotePath(addr string) string {
 	}
 	replacer := strings.NewReplacer(`\`, `\\`, `"`, `\"`)
 	return `"` + replacer.Replace(local) + `"` + domain
+}
+
+// validatePath checks that an address can be represented in a reverse-path or forward-path: like any
+// line it must not contain CR or LF, and no other control character either, since RFC 5321 does not even
+// allow those inside a Quoted-string.
+func validatePath(addr string) error {
+	if err := validateLine(addr); err != nil {
+		return err
+	}
+	for i := 0; i < len(addr); i++ {
+		if addr[i] < ' ' || addr[i] == 0x7f {
+			return errors.New("smtp: an address must not contain control characters")
+		}
+	}
+	return nil
 }
 
 // validateLine checks to see if a line has CR or LF as per RFC 5321.
